@@ -61,7 +61,9 @@ type Replay struct {
 // they are explored for their free choices only.
 type Generator struct {
 	Name string
-	Gen  func(yield func(sc *Scenario))
+	// Gen calls yield for every scenario; it should stop when yield returns false
+	// (the time cap was reached).
+	Gen func(yield func(sc *Scenario) bool)
 }
 
 type job struct {
@@ -298,12 +300,22 @@ func (e *Explorer) Run(budget time.Duration) {
 		j := e.jobs[i]
 		if j.gen > 0 {
 			g := &e.Generators[j.gen-1]
-			g.Gen(func(sc *Scenario) {
+			stopped := false
+			g.Gen(func(sc *Scenario) bool {
+				if stopped {
+					return false
+				}
+				if !e.deadline.IsZero() && time.Now().After(e.deadline) {
+					stopped = true
+					r.Capped(fmt.Sprintf("time cap reached inside generator %s: its remaining scenarios were not explored", g.Name))
+					return false
+				}
 				if sc.Bound != 0 {
 					kit.Fatalf("generator %s produced scenario %s with a deviation bound", g.Name, sc.Name)
 				}
 				r.Add("generated_scenarios", 1)
 				e.exploreFree(sc, false)
+				return true
 			})
 			return
 		}
@@ -353,11 +365,12 @@ func (e *Explorer) replay() {
 	}
 	found := false
 	for gi := range e.Generators {
-		e.Generators[gi].Gen(func(sc *Scenario) {
+		e.Generators[gi].Gen(func(sc *Scenario) bool {
 			if !found && sc.Name == rp.Scenario {
 				found = true
 				do(sc)
 			}
+			return !found
 		})
 		if found {
 			return
